@@ -306,7 +306,7 @@ BOUNDED = [
     ('chunks', ['C07', 'C12'], 'chunks:96', 'chunks:700',
      'C07 on real transforms (21 butterflies, Dft, every FftPlannerScalar<f64> length below the limit): a k-chunk call (k <= 6) equals k single-chunk calls bit for bit on the three explicit-scratch entry points'),
     ('simd_sse', ['C01', 'C03', 'C04', 'C06', 'C07', 'C08', 'C09', 'C13', 'C15'], 'simd_sse:260', 'simd_sse:1100',
-     'SIMD kernels are outside both verifiers: FftPlannerSse<f32|f64> on this CPU, every length below the limit: plans without panic, len/direction/scratch<=12n+64; through the three explicit-scratch entry points with canary-guarded buffers: 1..5 chunks and ill-shaped variants, canaries and immutable input intact, ill-shaped panics, every chunk equals the portable (scalar planner) transform of that chunk up to rounding (2e-4 f32 / 1e-11 f64 relative L2); with exactly the advertised scratch the output is bit-identical whether scratch and output start as zero, NaN or +inf (C08); at length 131072 (thorough: five lengths up to 327680) the distance to the portable transform stays below 16 eps log2 n (error growth with n)', 'avx,sse'),
+     'SIMD register arithmetic is outside both verifiers: FftPlannerSse<f32|f64> on this CPU, every length below the limit (direction by parity, both directions up to 72) plus 14 structured lengths up to 4096 in both directions (the large fixed-size kernels, deep radix chains): plans without panic, len/direction/scratch<=12n+64; through the three explicit-scratch entry points with canary-guarded buffers: 1..5 chunks and ill-shaped variants, canaries and immutable input intact, ill-shaped panics, every chunk equals the portable (scalar planner) transform of that chunk up to rounding (2e-4 f32 / 1e-11 f64 relative L2); with exactly the advertised scratch the output is bit-identical whether scratch and output start as zero, NaN or +inf (C08); at length 131072 (thorough: five lengths up to 327680) the distance to the portable transform stays below 16 eps log2 n (error growth with n)', 'avx,sse'),
     ('simd_avx', ['C01', 'C03', 'C04', 'C06', 'C07', 'C08', 'C09', 'C13', 'C15'], 'simd_avx:336', 'simd_avx:1100',
      'same for FftPlannerAvx<f32|f64> (this CPU: avx2+fma)', 'avx,sse'),
     ('simd_mem', ['C03', 'C15'], 'simd_mem:256', 'simd_mem:1100',
